@@ -10,11 +10,14 @@ use std::collections::{BTreeMap, BTreeSet, HashSet};
 use std::fmt::Write as _;
 use std::path::{Path, PathBuf};
 
-pub const NAMES: [&str; 28] = [
+pub const NAMES: [&str; 35] = [
     "a", "A", "a_", "b", "B", "public.default", "fore", "con", "A_", ".a", "aa", "é", "", "a\u{1}",
     // non-ASCII cased letters whose lower-casing matters, in case-variant pairs: the second of
     // each pair is what the first one's file name lower-cases to
     "Äb", "ä_b", "Ä", "ä_", "É", "é_", "İ", "i\u{307}_", "\u{212A}", "k_", "ẞ", "ß_", "\u{2126}", "ω_",
+    // families of names that collapse to ONE file name stem (illegal characters and a leading
+    // period become '_'): second, third and fourth clashes on one stem
+    "a_b", "a*b", "a?b", "a:b", ".alt", "_alt", ":alt",
 ];
 /// indices of the valid names (12 and 13 are the invalid ones)
 fn valid_index(k: usize) -> usize {
@@ -24,7 +27,8 @@ fn valid_index(k: usize) -> usize {
         k + 2
     }
 }
-const NVALID: usize = 26;
+const NVALID: usize = 33;
+const FAM: [usize; 7] = [28, 29, 30, 31, 32, 33, 34];
 const UNI: [usize; 14] = [14, 15, 16, 17, 18, 19, 20, 21, 22, 23, 24, 25, 26, 27];
 const PD: usize = 5;
 
@@ -872,6 +876,58 @@ fn glyph_alphabet_unicode() -> Vec<Op> {
     v.push(InsertGlyph(l, 19));
     v
 }
+/// names that collapse to one file name stem: glyph level and layer level
+fn glyph_alphabet_collapse() -> Vec<Op> {
+    let l = PD;
+    vec![
+        InsertGlyph(l, 28),
+        InsertGlyph(l, 29),
+        InsertGlyph(l, 30),
+        InsertGlyph(l, 31),
+        InsertGlyph(l, 32),
+        InsertGlyph(l, 33),
+        InsertGlyph(l, 34),
+        RemoveGlyph(l, 28),
+        RemoveGlyph(l, 29),
+        RemoveGlyph(l, 33),
+        RenameGlyph(l, 28, 29, false),
+        RenameGlyph(l, 28, 29, true),
+        RenameGlyph(l, 29, 30, true),
+        RenameGlyph(l, 30, 28, true),
+        RenameGlyph(l, 31, 30, false),
+        RenameGlyph(l, 32, 34, false),
+        RenameGlyph(l, 33, 32, true),
+        ClearLayer(l),
+        RetainGlyphs(l, vec![29, 30, 34]),
+        RetainGlyphs(l, FAM.to_vec()),
+        SaveLoad,
+    ]
+}
+fn layer_alphabet_collapse() -> Vec<Op> {
+    vec![
+        NewLayer(28),
+        NewLayer(29),
+        NewLayer(30),
+        NewLayer(31),
+        NewLayer(33),
+        NewLayer(34),
+        RemoveLayer(28),
+        RemoveLayer(29),
+        RenameLayer(28, 29, false),
+        RenameLayer(28, 29, true),
+        RenameLayer(29, 30, true),
+        RenameLayer(30, 28, true),
+        RenameLayer(31, 30, false),
+        RenameLayer(33, 34, false),
+        RenameLayer(PD, 31, false),
+        RetainLayers(vec![29, 30]),
+        RetainLayers(FAM.to_vec()),
+        RemoveEmptyLayers,
+        InsertGlyph(29, 28),
+        SaveLoad,
+    ]
+}
+
 fn layer_alphabet_unicode() -> Vec<Op> {
     vec![
         NewLayer(14),
@@ -900,11 +956,15 @@ fn layer_alphabet_unicode() -> Vec<Op> {
 }
 
 fn random_op(rng: &mut Rng) -> Op {
-    let layer_pool = [PD, PD, PD, PD, 6, 0, 1, 2, 3, 8, 14, 16];
+    let layer_pool = [PD, PD, PD, PD, PD, 6, 0, 1, 2, 3, 8, 14, 16, 28, 29];
     let l = *rng.pick(&layer_pool);
     let vname = |rng: &mut Rng| valid_index(rng.below(NVALID as u64) as usize);
     let any = |rng: &mut Rng| if rng.chance(1, 12) { 12 + rng.below(2) as usize } else { valid_index(rng.below(NVALID as u64) as usize) };
-    let few = |rng: &mut Rng| if rng.chance(1, 3) { [14usize, 15, 16, 17, 20, 21, 22, 23][rng.below(8) as usize] } else { [0usize, 1, 2, 8, 3][rng.below(5) as usize] };
+    let few = |rng: &mut Rng| match rng.below(4) {
+        0 => [14usize, 15, 16, 17, 20, 21, 22, 23][rng.below(8) as usize],
+        1 => FAM[rng.below(7) as usize],
+        _ => [0usize, 1, 2, 8, 3][rng.below(5) as usize],
+    };
     let keep = |rng: &mut Rng| (0..NVALID).map(valid_index).filter(|_| rng.chance(1, 2)).collect::<Vec<_>>();
     match rng.below(100) {
         0..=24 => InsertGlyph(l, if rng.chance(2, 3) { few(rng) } else { vname(rng) }),
@@ -949,13 +1009,15 @@ pub fn main(a: &Args) {
         TrieSpec { id: "Lw".to_string(), start: 0, alphabet: layer_alphabet_wide(), depth: 3, split: 1 },
         TrieSpec { id: "Gu".to_string(), start: 0, alphabet: glyph_alphabet_unicode(), depth: 3, split: 1 },
         TrieSpec { id: "Lu".to_string(), start: 0, alphabet: layer_alphabet_unicode(), depth: 3, split: 1 },
+        TrieSpec { id: "Gc".to_string(), start: 0, alphabet: glyph_alphabet_collapse(), depth: 3, split: 1 },
+        TrieSpec { id: "Lc".to_string(), start: 0, alphabet: layer_alphabet_collapse(), depth: 3, split: 1 },
     ];
     for s in 0..STARTS.len() {
         specs.push(TrieSpec { id: format!("M{}", s), start: s, alphabet: mixed_alphabet(), depth: if s < NLOAD { 2 } else { 1 }, split: if s < NLOAD { 1 } else { 0 } });
     }
     if light {
         // C07's container part: well-formed starts, no raw entry access (those belong to C06)
-        specs.retain(|s| s.id == "M0" || s.id == "M2" || s.id == "M4" || s.id == "M5" || s.id == "Gu");
+        specs.retain(|s| s.id == "M0" || s.id == "M2" || s.id == "M4" || s.id == "M5" || s.id == "Gu" || s.id == "Gc");
         for s in specs.iter_mut() {
             s.alphabet.retain(|o| !matches!(o, EntryOrInsert(..) | EntryRemove(..)));
         }
